@@ -1,35 +1,35 @@
 #!/bin/bash
 # usage: seed_eval.sh <worktree id> <seed name> <check> [<check>...]
-# confirms a seeded change in its scratch worktree (tests pass, demo fails with / passes without), stores it under seeded/, then runs the checks on /repo with the change applied
+# Confirms a seeded change in its scratch worktree (brought to /repo's HEAD): suite passes, demonstration fails with / passes
+# without the change; stores it under seeded/<name>/; then runs the named checks with VERIF_REPO pointing at the patched worktree
+# (equivalent to `git -C /repo apply` + run + `git -C /repo checkout -- .`, without disturbing /repo).
 ID=$1; NAME=$2; shift 2
 WT=/tmp/wt/$ID
 OUT=/verif/seeded/$NAME
 mkdir -p $OUT
 cd $WT || exit 2
 git checkout -q -- depccg
-git apply --check seed/patch.diff || { echo "PATCH DOES NOT APPLY in worktree"; exit 2; }
+git checkout -q --detach $(git -C /repo rev-parse HEAD)
+git apply --check seed/patch.diff || { echo "PATCH DOES NOT APPLY to current HEAD"; exit 2; }
+( cd $WT && timeout 900 sh seed/run.sh > /tmp/seed_demo_without_$ID.log 2>&1 ); RC_WITHOUT=$?
 git apply seed/patch.diff
 T=$(/venv/bin/python -m pytest -q -p no:cacheprovider --continue-on-collection-errors 2>&1 | tail -1)
-( cd $WT && timeout 900 sh seed/run.sh > /tmp/seed_demo_with.log 2>&1 ); RC_WITH=$?
-git checkout -q -- depccg
-( cd $WT && timeout 900 sh seed/run.sh > /tmp/seed_demo_without.log 2>&1 ); RC_WITHOUT=$?
+( cd $WT && timeout 900 sh seed/run.sh > /tmp/seed_demo_with_$ID.log 2>&1 ); RC_WITH=$?
 echo "tests with change: $T ; demo rc with=$RC_WITH without=$RC_WITHOUT"
 cp seed/patch.diff $OUT/; cp seed/notes.md $OUT/ 2>/dev/null; for f in seed/demo* seed/run.sh seed/_stubs.py; do [ -f $f ] && cp $f $OUT/; done
-cd /repo && git apply --check $OUT/patch.diff || { echo "PATCH DOES NOT APPLY to current /repo HEAD"; APPLY=no; }
 RES=""
-if [ "$APPLY" != "no" ]; then
-  git -C /repo apply $OUT/patch.diff
-  for C in "$@"; do
-    cd /verif && timeout 2400 ./vcheck $C --tier quick > /tmp/seed_check_$C.log 2>&1; RC=$?
-    RES="$RES $C:rc=$RC"
-    echo "--- $C rc=$RC"; grep -m3 "counterexample\|VIOLATION" /tmp/seed_check_$C.log | cut -c1-300
-  done
-  git -C /repo checkout -- .
-fi
+for C in "$@"; do
+  cd /verif && VERIF_REPO=$WT VERIF_EVIDENCE_DIR=/tmp/seed_evidence timeout 2400 ./vcheck $C --tier quick > /tmp/seed_check_${ID}_$C.log 2>&1; RC=$?
+  RES="$RES $C:rc=$RC"
+  echo "--- $C rc=$RC"; grep -m3 "counterexample\|VIOLATION\|HARNESS" /tmp/seed_check_${ID}_$C.log | cut -c1-300
+done
+cd $WT && git checkout -q -- depccg
 python3 - "$ID" "$NAME" "$T" "$RC_WITH" "$RC_WITHOUT" "$RES" <<'PY'
 import json, sys
 i, name, t, a, b, res = sys.argv[1:7]
 json.dump(dict(breaks_property=i, name=name, tests_with_change=t, demo_rc_with_change=int(a), demo_rc_without_change=int(b),
-               checks_run=res.strip(), confirmed=(t.startswith('3583 passed') and int(a) != 0 and int(b) == 0)), open('/verif/seeded/%s/meta.json' % name, 'w'), indent=1)
+               checks_run_with_change_applied=res.strip(), confirmed=(t.startswith('3583 passed') and int(a) != 0 and int(b) == 0),
+               how='scratch worktree at /repo HEAD + patch; suite; seed/run.sh with and without the patch; ./vcheck <check> --tier quick with VERIF_REPO=<patched worktree>'),
+          open('/verif/seeded/%s/meta.json' % name, 'w'), indent=1)
 print(open('/verif/seeded/%s/meta.json' % name).read())
 PY
